@@ -106,7 +106,7 @@ def getSelReq (j : Json) : Except String (Option SelReq) := do
   match addEdges nodes.length [] raw with
   | none => throw "addedge"
   | some es =>
-    match pats.mapM (parsePattern cur) with
+    match (if pats.isEmpty then some [] else parsePatterns cur pats) with
     | none => pure none
     | some ps => pure (some ⟨⟨nodes, es⟩, ⟨ps, tags, ex, typ⟩, ⟨plat, allp⟩⟩)
 
